@@ -224,7 +224,8 @@ CHECKS.update({
              '{none, AS alias, implicit alias}) the five accessors return exactly the written parts with quotes removed; closed examples '
              'show cur_parse yields these shapes, and the finite pipeline family C12_pipeline_fin (bound in the statement: 11 contexts x 3 '
              'qualifiers x 4 quotings x 5 alias forms = 660 texts through lexer, splitter and all 25 passes, vm_compute) ties the shapes '
-             'to what the passes build. That every other syntactic context yields the canonical shape is decided by the direct oracle '
+             'to what the passes build; the family is lifted over the values of the white-space tokens (C12_family_respelled: every re-spelling that keeps '
+             'the tokens but changes white-space values gives an Identifier with the same accessor answers; accessor invariance lemmas). That every other syntactic context yields the canonical shape is decided by the direct oracle '
              'over 40+ contexts x quotings x alias forms x whitespace (two listed findings).',
         note='Partial: pipeline-level shape by exploration (oracle) + closed examples; accessor level unbounded.',
         design='7/C12', technique='Coq proof (accessor theorems on shapes) + acc correspondence + context oracle'),
